@@ -58,7 +58,27 @@ func drawDEKTemplate(rt *rapid.T, label string) (*tinkpb.KeyTemplate, string) {
 	if err != nil {
 		rt.Fatalf("harness: SerializeParameters of the usable %s: %v", info.Desc, err)
 	}
-	return tmpl, info.Type + " parameters of {" + info.Desc + "}"
+	desc := info.Type + " parameters of {" + info.Desc + "}"
+	// A DEK is serialized and encrypted under the KEK on every Encrypt, and the envelope format
+	// bounds the encrypted DEK (4096 bytes).  The only supported DEK type with an unbounded size field
+	// is AES-CTR-HMAC (HMAC key size): templates whose keys serialize to just below and above that
+	// bound are valid key formats, so the handle is accepted; the primitive has to stay
+	// self-consistent - refusing to encrypt is fine, producing what it cannot decrypt is not
+	// (added after seeded change C14h).
+	if info.Type == "AesCtrHmacAead" && rapid.IntRange(0, 1).Draw(rt, label+"_big_hmac_key") == 0 {
+		n := uint32(rapid.SampledFrom([]int{3000, 3900, 4000, 4020, 4040, 4060, 4080, 4100, 5000, 70000}).Draw(rt, label+"_hmac_key_size"))
+		nv, d := transform(tmpl.GetTypeUrl(), tmpl.GetValue(), true, func(m protoreflect.Message) string {
+			setUint32(m, "hmac_key_format.key_size", n)
+			return fmt.Sprintf("hmac_key_format.key_size %d", n)
+		})
+		if d == "" {
+			rt.Fatalf("harness: cannot rewrite the key format of %s", tmpl.GetTypeUrl())
+		}
+		tmpl = proto.Clone(tmpl).(*tinkpb.KeyTemplate)
+		tmpl.Value = nv
+		desc += " with " + d
+	}
+	return tmpl, desc
 }
 
 func envelopeEntry(rt *rapid.T, uri string, dek *tinkpb.KeyTemplate, prefix tinkpb.OutputPrefixType, id uint32, st tinkpb.KeyStatusType) *tinkpb.Keyset_Key {
